@@ -1778,7 +1778,11 @@ func (w *transformingWriter) Close() error {
 		// was still running) there is nobody to flush the body to: the
 		// buffer behind w.w has been returned to the pool.
 		if w.rw.err == nil {
-			if err := w.flushMessage(); err != nil {
+			if declared := w.rw.contentLen; declared != -1 && w.buffer != nil && w.buffer.Len() != declared {
+				// A body that is not what its Content-Length announced is a
+				// truncated (or overlong) message, even if it happens to decode.
+				w.rw.reportError(fmt.Errorf("handler wrote %d bytes of a message with a declared content-length of %d", w.buffer.Len(), declared))
+			} else if err := w.flushMessage(); err != nil {
 				w.rw.reportError(err)
 			}
 		}
